@@ -1943,6 +1943,23 @@ func (c *RemoteClient) handleRequestResponse(ctx context.Context, message *Messa
 		}
 
 	case *Reject:
+		switch msg.MessageType {
+		case MessageTypeGetHeaders, MessageTypeGetFeeQuotes:
+			// These requests are not identified by a hash, so their rejects don't contain one.
+			logger.Warn(ctx, "Received reject for %s : %s", NameForMessageType(msg.MessageType),
+				msg.Message)
+
+			for i, request := range c.requests {
+				if request.typ == msg.MessageType {
+					request.response <- message
+					c.requests = append(c.requests[:i], c.requests[i+1:]...)
+					return nil
+				}
+			}
+
+			return nil
+		}
+
 		if msg.Hash == nil {
 			logger.Info(ctx, "Received reject with no hash")
 			return nil
@@ -2033,17 +2050,6 @@ func (c *RemoteClient) handleRequestResponse(ctx context.Context, message *Messa
 			logger.WarnWithFields(ctx, []logger.Field{
 				logger.Stringer("txid", msg.Hash),
 			}, "No matching request found for get header reject")
-
-		case MessageTypeGetFeeQuotes:
-			logger.Warn(ctx, "Received reject for get fee quotes : %s", msg.Message)
-
-			for i, request := range c.requests {
-				if request.typ == MessageTypeGetFeeQuotes {
-					request.response <- message
-					c.requests = append(c.requests[:i], c.requests[i+1:]...)
-					return nil
-				}
-			}
 
 		case MessageTypeReprocessTx:
 			logger.WarnWithFields(ctx, []logger.Field{
